@@ -24,8 +24,61 @@ def N(x):
 # ----------------------------------------------------------------------------
 # arrays
 # ----------------------------------------------------------------------------
+def arrow_of(arr):
+    """the pyarrow array behind a geometry array, through the public Arrow protocol
+    (__arrow_array__), not through an attribute name"""
+    import pyarrow as pa
+    return pa.array(arr)
+
+
+def _bits(buf, nbits):
+    if buf is None:
+        return None
+    by = np.frombuffer(buf, dtype=np.uint8)
+    return [bool((by[i // 8] >> (i % 8)) & 1) for i in range(min(nbits, len(by) * 8))]
+
+
+def _zval(v):
+    return C.num(float(v) * SCALE)
+
+
 def export_garr(kind, arr):
-    rec = C.export_fixarr(arr, SCALE) if kind == 'point' else C.export_listarr(arr, SCALE)
+    """the model's view of the array: the buffers pyarrow exports (same layout as
+    common.export_listarr / export_fixarr, but read through __arrow_array__ and with the
+    nesting depth taken from the Arrow type)"""
+    import pyarrow as pa
+    data = arrow_of(arr)
+    bufs = data.buffers()
+    off, n = data.offset, len(data)
+    if kind == 'point':
+        valid = _bits(bufs[0], off + n)
+        vals = np.frombuffer(bufs[1], dtype='float64') if bufs[1] is not None else np.array([])
+        vals = [_zval(v) for v in vals[:2 * (off + n)]]
+        rec = C.Rec('Build_fixarr', N(off), N(n), None if valid is None else C.Some(valid), vals)
+        return C.Rec(CTOR[kind], rec)
+    t, nlev = data.type, 0
+    while pa.types.is_list(t) or pa.types.is_large_list(t):
+        t, nlev = t.value_type, nlev + 1
+    if len(bufs) < 3 or nlev == 0:
+        raise ValueError('null-typed array: not modelled')
+    if not pa.types.is_float64(t):
+        raise ValueError('only float64 elements are exported by this check')
+    valid = _bits(bufs[0], off + n)
+    offs = []
+    for lev in range(nlev):
+        b = bufs[1 + 2 * lev]
+        ob = np.frombuffer(b, dtype=np.uint32) if b is not None else np.array([0], dtype=np.uint32)
+        offs.append([N(x) for x in ob])
+    need = off + n
+    trimmed = []
+    for o in offs:
+        o = o[:need + 1] if len(o) > need + 1 else o
+        trimmed.append(o)
+        need = int(o[-1]) if o else 0
+    vb = bufs[-1]
+    vals = np.frombuffer(vb, dtype='float64') if vb is not None else np.array([])
+    vals = [_zval(v) for v in vals[:need]]
+    rec = C.Rec('Build_listarr', N(off), N(n), None if valid is None else C.Some(valid), trimmed, vals)
     return C.Rec(CTOR[kind], rec)
 
 
@@ -43,7 +96,7 @@ def modelled(kind, garr):
 def pylist(arr):
     """the elements of an array as hashable keys (None = missing)"""
     out = []
-    for v in arr.data.to_pylist():
+    for v in arrow_of(arr).to_pylist():
         out.append(None if v is None else v.hex() if isinstance(v, bytes) else json.dumps(v))
     return out
 
@@ -274,24 +327,41 @@ def read_series(src, src_keys, labels, res):
     return pos
 
 
+def geometry_name(df):
+    """name of the active geometry column, through the public .geometry property"""
+    return df.geometry.name
+
+
+def _is_geometry(arr):
+    from spatialpandas.geometry import GeometryArray
+    return isinstance(arr, GeometryArray)
+
+
 def read_frame(src, src_keys, labels, res):
     from spatialpandas import GeoDataFrame
     if type(res) is not GeoDataFrame:
         raise Bad('result-type', f'GeoDataFrame.cx returned {type(res).__name__}')
-    if list(res.columns) != list(src.columns) or res._geometry != src._geometry:
-        raise Bad('result-type', 'GeoDataFrame.cx changed the columns or the active geometry')
+    gname = geometry_name(src)
+    if list(res.columns) != list(src.columns):
+        raise Bad('result-type', 'GeoDataFrame.cx changed the columns')
+    try:
+        rname = geometry_name(res)
+    except Exception:  # noqa
+        rname = None
+    if rname != gname:
+        raise Bad('result-type', 'GeoDataFrame.cx changed the active geometry')
     pos = [int(x) for x in res['rid'].tolist()]
     if any(p < 0 or p >= len(src_keys) for p in pos):
         raise Bad('payload', 'row id payload out of range')
     if list(res.index) != [labels[i] for i in pos]:
         raise Bad('labels', 'index labels of the selected rows changed or moved')
-    if pylist(res[src._geometry].array) != [src_keys[i] for i in pos]:
+    if pylist(res[gname].array) != [src_keys[i] for i in pos]:
         raise Bad('payload', 'geometry of a selected row changed')
     for col in src.columns:
-        if col in ('rid', src._geometry):
+        if col in ('rid', gname):
             continue
         sv = src[col]
-        if hasattr(sv.array, 'data') and hasattr(sv.array.data, 'to_pylist'):
+        if _is_geometry(sv.array):
             a, b = pylist(res[col].array), pylist(sv.array)
         else:
             a, b = res[col].tolist(), sv.tolist()
@@ -302,18 +372,42 @@ def read_frame(src, src_keys, labels, res):
     return pos
 
 
-def index_state(arr):
-    """None, or (keys, page_size) of the array's built index"""
+def internal_index(arr):
+    """OPTIONAL look at the private index slot of a geometry array:
+    ('unavailable',) when the attribute is not there, else ('none',) / ('built', rtree)"""
+    if not hasattr(arr, '_sindex'):
+        return ('unavailable',)
     t = arr._sindex
-    if t is None:
-        return None
-    return ([int(k) for k in t._keys], int(t._page_size))
+    return ('none',) if t is None else ('built', t)
 
 
-def model_state(st):
-    if st is None:
+def model_state(n, page_size):
+    """the model's index state for an index this check built itself with `page_size`
+    (None = never built).  The permutation is the identity: by C04_index_config_irrelevant
+    the answer does not depend on it, so the index's private key array is not needed."""
+    if page_size is None:
         return None
-    return C.Some(([N(k) for k in st[0]], N(st[1])))
+    return C.Some(([N(k) for k in range(n)], N(max(1, page_size))))
+
+
+def py_box(pykey, extent):
+    """the box (x0, x1, y0, y1) a key denotes on data of the given extent (Spec/CxSpec.v
+    spec_box, with NaN extents allowed); None for a key with a step"""
+    xs, ys = pykey
+    xs = xs if isinstance(xs, slice) else slice(xs, xs)
+    ys = ys if isinstance(ys, slice) else slice(ys, ys)
+    if xs.step is not None or ys.step is not None:
+        return None
+    xmin, ymin, xmax, ymax = extent
+    x0 = xs.start if xs.start is not None else xmin
+    x1 = xs.stop if xs.stop is not None else xmax
+    y0 = ys.start if ys.start is not None else ymin
+    y1 = ys.stop if ys.stop is not None else ymax
+    if x1 < x0:
+        x0, x1 = x1, x0
+    if y1 < y0:
+        y0, y1 = y1, y0
+    return (float(x0), float(x1), float(y0), float(y1))
 
 
 def model_result(r):
